@@ -10,6 +10,7 @@ import (
 	"flag"
 	"fmt"
 	"os"
+	"runtime/debug"
 	"sort"
 	"strconv"
 	"strings"
@@ -428,6 +429,9 @@ func runImpl(ops []string) (lines []string, panicked string) {
 		func() {
 			defer func() {
 				if r := recover(); r != nil {
+					if os.Getenv("VERIF_MKVS_TRACE") != "" {
+						fmt.Fprintf(os.Stderr, "panic in `%s`: %v\n%s\n", op, r, debug.Stack())
+					}
 					panicked = fmt.Sprintf("%s: %v", op, r)
 					line = op + " PANIC:" + strings.ReplaceAll(clip(fmt.Sprint(r)), " ", "_")
 				}
